@@ -714,6 +714,89 @@ fn definitions_job(ctx: &Ctx, job: usize, rounds: u64) -> Stats {
     st
 }
 
+/// PERIODIC REVISITS: one environment, K kept functions over the variables 0..5, each touched by
+/// exactly one operation per round and otherwise left alone; the rest of a round (its length is
+/// the period: 256 or 65 536 operations) works on unrelated functions over other variables. In the
+/// next round the same function meets another operation / another variable. Every result is
+/// compared with the reference — a result remembered from exactly one period ago is a wrong one.
+pub(crate) fn periodic_revisit_job(ctx: &Ctx, which: &str, period: usize, rounds: usize) -> Stats {
+    let mut st = Stats::new();
+    let mut rng = Rng::stream(ctx.seed, "C13.periodic", period as u64);
+    let env: BDDEnv<usize> = BDDEnv::new();
+    let n = 6u32;
+    let kept_vars: Vec<(usize, u32)> = (0..n).map(|i| (i as usize, i)).collect();
+    let filler_vars: Vec<(usize, u32)> = (0..3u32).map(|i| (100 + i as usize, i)).collect();
+    let k = (period / 2).min(400);
+    let random_t = |rng: &mut Rng, n: u32| {
+        let mut t = Tt::constant(n, false);
+        for a in 0..t.size() {
+            t.set(a, rng.chance(1, 2));
+        }
+        t
+    };
+    let kept: Vec<(D, Tt)> = (0..k).map(|_| { let t = random_t(&mut rng, n); (build_in_env(&env, &t, &kept_vars), t) }).collect();
+    let fillers: Vec<(D, Tt)> = (0..16).map(|_| { let t = random_t(&mut rng, 3); (build_in_env(&env, &t, &filler_vars), t) }).collect();
+    let idx = |l: &usize| if *l < 100 { Some(*l as u32) } else { None };
+    let fidx = |l: &usize| if *l >= 100 { Some((*l - 100) as u32) } else { None };
+    // one operation of kind `op` on variable `v` (label base `base`): (engine result, reference table)
+    let apply = |d: &D, t: &Tt, op: usize, v: u32, base: usize, nn: u32| -> (D, Tt) {
+        let label = base + v as usize;
+        match op % 6 {
+            0 => (env.exists(vec![label], Rc::clone(d)), t.exists(v)),
+            1 => (env.all(vec![label], Rc::clone(d)), t.forall(v)),
+            2 => (env.exists_impl(&label, Rc::clone(d)), t.exists(v)),
+            3 => (env.and(Rc::clone(d), env.var(label)), t.and(&Tt::var(nn, v))),
+            4 => (env.or(env.not(env.var(label)), Rc::clone(d)), t.or(&Tt::var(nn, v).not())),
+            _ => (env.xor(Rc::clone(d), env.var(label)), t.xor(&Tt::var(nn, v))),
+        }
+    };
+    util::budget(u64::MAX, 1000);
+    let case = json!({"kind": "periodic", "period": period, "rounds": rounds, "seed": ctx.seed});
+    let r = guarded(|| -> Result<u64, String> {
+        // one phase per KIND of operation: within a phase every operation of the environment is of
+        // that kind, so a kept function meets the same kind again after exactly `period` calls of it
+        // (with another variable) — and, in the mixed phase at the end, after `period` operations of any kind
+        let mut ops = 0u64;
+        for kind in 0..7usize {
+            for round in 0..rounds {
+                for step in 0..period {
+                    ops += 1;
+                    let op = if kind < 6 { kind } else { step + round };
+                    if step < k {
+                        let (d, t) = &kept[step];
+                        let v = ((step + round) % 6) as u32;
+                        let (got, want) = apply(d, t, op, v, 0, n);
+                        if tt_of_bdd(&got, n, &idx).ok().as_ref() != Some(&want) {
+                            return Err(format!("phase {} round {} (operation {} of the environment): operation #{} on variable {} of the kept function {} = {} gives {} — a wrong function (the same function met the operation with variable {} exactly {} operations earlier)", kind, round, ops, op % 6, v, step, short(d), short(&got), (step + round + 5) % 6, period));
+                        }
+                    } else {
+                        let (d, t) = &fillers[(step * 7 + round) % fillers.len()];
+                        let (got, want) = apply(d, t, op, ((step / 3) % 3) as u32, 100, 3);
+                        if step % 64 == 0 && tt_of_bdd(&got, 3, &fidx).ok().as_ref() != Some(&want) {
+                            return Err(format!("round {}: an operation on an unrelated function gives {}", round, short(&got)));
+                        }
+                    }
+                }
+            }
+        }
+        Ok(ops)
+    });
+    st.evals += 1;
+    match r {
+        Ok(Ok(ops)) => {
+            st.add("operations_in_periodic_revisit_histories", ops);
+            st.bump("periodic_revisit_histories");
+            st.nt.insert(mix(0x13_9e, period as u64));
+        }
+        Ok(Err(m)) => {
+            let monitor = match which { "C02" => "c02.route-function", "C04" => "c04.semantics", _ => "c13.history-independence" };
+            st.violate(monitor, format!("{}:periodic:{}:differs-from-reference", which, period), format!("one environment, period {}: {}", period, m), case)
+        }
+        Err(c) => st.violate(&format!("{}.panic", which.to_lowercase()), format!("{}:periodic:{}", which, c.signature()), format!("{:?}", c), case),
+    }
+    st
+}
+
 pub fn run(ctx: &Ctx) -> (Stats, Spec) {
     let big = ctx.tier.pick(18_000usize, 40_000usize);
     let (hist, maxlen, rounds) = ctx.tier.pick((300u64, 600usize, 2500u64), (1500u64, 3000usize, 20000u64));
@@ -725,6 +808,12 @@ pub fn run(ctx: &Ctx) -> (Stats, Spec) {
             s.merge(definitions_job(ctx, job, rounds / 10));
             if job == 0 {
                 s.merge(big_table_job(ctx, big));
+            }
+            if job == 1 {
+                s.merge(periodic_revisit_job(ctx, "C13", 65_536, ctx.tier.pick(3usize, 6usize)));
+            }
+            if job == 2 {
+                s.merge(periodic_revisit_job(ctx, "C13", 256, ctx.tier.pick(40usize, 400usize)));
             }
             s
         });
@@ -749,6 +838,7 @@ pub fn run(ctx: &Ctx) -> (Stats, Spec) {
             ("re_evaluations".into(), 50, "no re-evaluations in shared environments".into()),
             ("drop_heavy_histories".into(), 500, "histories with dropped handles hardly exercised".into()),
             ("big_table_functions".into(), 1_000, "the large-environment history did not run".into()),
+            ("periodic_revisit_histories".into(), 2, "periodic revisits did not run".into()),
             ("all_handles_dropped".into(), 100, "dropping every handle never exercised".into()),
             ("nodes_checked_for_sharing".into(), 10_000, "sharing walker saw too few nodes".into()),
             ("distinct_nontrivial".into(), 50, "too few non-trivial histories".into()),
@@ -817,6 +907,13 @@ fn parse_op(s: &str) -> Option<Op> {
 }
 
 pub fn replay(_ctx: &Ctx, _monitor: &str, case: &Value, st: &mut Stats) {
+    if case.get("kind").and_then(|k| k.as_str()) == Some("periodic") {
+        let g = |k: &str| case.get(k).and_then(|j| j.as_u64()).unwrap_or(0);
+        let mut c2 = _ctx.clone();
+        c2.seed = g("seed");
+        st.merge(periodic_revisit_job(&c2, "C13", g("period").max(2) as usize, g("rounds").max(2) as usize));
+        return;
+    }
     if case.get("kind").and_then(|k| k.as_str()) == Some("definitions") {
         // the job's stream is deterministic: re-run it
         let mut c2 = _ctx.clone();
